@@ -1,2 +1,146 @@
-/- placeholder driver for C18: replaced when the check for C18 is built -/
-def main : IO Unit := IO.println "not-built"
+import CashewsVerif.Driver.Proto
+import CashewsVerif.Model.Bits
+import CashewsVerif.Model.Indexes
+import CashewsVerif.Model.Bloom
+import CashewsVerif.Spec.Counters
+/-
+Driver for C18.  One request line → one answer line.
+
+stateless (array given as a decimal integer):
+  get A I W                → v=N
+  set A I V W              → a=N
+  incr A I W BY            → a=N v=N                      (v = field I afterwards)
+history on one key at a fixed width (model `Bits.run` and ideal array `Counters.run` side by side):
+  bits W                   → ok                           (key absent)
+  getbits L                → model=L spec=L               (L = comma list, `-` = empty)
+  incrbits BY L            → model=L spec=L
+  val                      → a=N                          (the model's integer)
+index derivation (hash values are DATA supplied by the harness: for algorithm a, the values of
+`algorithms[a](f"{key}_{j}".encode())` for j = 0 .. K+FUEL-1; crc32 stays uninterpreted):
+  idx REG KEYHEX K M FUEL T0;T1;…   → assert | nofuel | S=L re=MAXREPROBES   (stores S in register REG)
+Bloom filter (index lists are `L` or `$REG`):
+  bloom                    → ok
+  badd R L                 → ok                           (R = T/F: result of the wrapped function)
+  bquery CHK UNDER L       → ans=T|F calls=T|F
+  dual                     → ok
+  dcall NOCOLL UNDER LT LF → ans=T|F calls=T|F
+-/
+open CashewsVerif CashewsVerif.Proto
+
+structure St where
+  w : Nat := 1
+  a : Nat := 0
+  c : Nat → Nat := Counters.init
+  filt : Nat := 0
+  dual : Bloom.Dual := ⟨0, 0⟩
+  regs : List (String × List Nat) := []
+
+def parseList? (s : String) : Option (List Nat) :=
+  if s = "-" then some [] else allSome ((s.splitOn ",").map String.toNat?)
+
+def showList (l : List Nat) : String :=
+  if l.isEmpty then "-" else ",".intercalate (l.map toString)
+
+def parseBool? (s : String) : Option Bool :=
+  if s = "T" then some true else if s = "F" then some false else none
+
+def showBool (b : Bool) : String := if b then "T" else "F"
+
+def hexVal? (c : Char) : Option Nat :=
+  if '0' ≤ c ∧ c ≤ '9' then some (c.toNat - '0'.toNat)
+  else if 'a' ≤ c ∧ c ≤ 'f' then some (c.toNat - 'a'.toNat + 10)
+  else none
+
+def hexBytes? : List Char → Option (List UInt8)
+  | [] => some []
+  | [_] => none
+  | h :: l :: rest => do
+    let x ← hexVal? h
+    let y ← hexVal? l
+    let r ← hexBytes? rest
+    pure ((x * 16 + y).toUInt8 :: r)
+
+/-- `-` = the empty key -/
+def parseKey? (s : String) : Option (List UInt8) :=
+  if s = "-" then some [] else hexBytes? s.toList
+
+def lookupBytes (t : List (List UInt8 × Nat)) (bs : List UInt8) : Nat :=
+  match t.find? (fun p => p.1 == bs) with
+  | some p => p.2
+  | none => 0   -- never reached: the table covers every probe the model can make (`indexes_depend_only_on_probes`)
+
+def idxArg? (st : St) (s : String) : Option (List Nat) :=
+  if s.startsWith "$" then (st.regs.find? (fun p => p.1 == s.drop 1)).map (·.2) else parseList? s
+
+def doIdx (st : St) (reg key k m fuel tabs : String) : St × String :=
+  match parseKey? key, k.toNat?, m.toNat?, fuel.toNat?, allSome ((tabs.splitOn ";").map parseList?) with
+  | some key, some k, some m, some fuel, some tabs =>
+    if tabs.isEmpty ∨ tabs.any (fun t => t.length ≠ k + fuel) then (st, "bad-op")
+    else if m < k then (st, "assert")       -- `assert max_index >= number_of_buckets`
+    else
+      let nalg := tabs.length
+      let tables := tabs.map fun t => (List.range (k + fuel)).zip t |>.map fun p => (Indexes.probeBytes key p.1, p.2)
+      let hash : Nat → List UInt8 → Nat := fun a bs => lookupBytes (tables.getD a []) bs
+      match Indexes.getIndexes hash nalg key k m fuel with
+      | none => (st, "nofuel")
+      | some S =>
+        let re := (List.range k).foldl (fun mx b => max mx (Indexes.reprobes hash nalg key m fuel S b)) 0
+        ({ st with regs := (reg, S) :: st.regs.filter (fun p => p.1 != reg) }, s!"S={showList S} re={re}")
+  | _, _, _, _, _ => (st, "bad-op")
+
+def step (st : St) (line : String) : St × String :=
+  match words line with
+  | ["get", a, i, w] =>
+    match a.toNat?, i.toNat?, w.toNat? with
+    | some a, some i, some w => (st, s!"v={Bits.get a i w}")
+    | _, _, _ => (st, "bad-op")
+  | ["set", a, i, v, w] =>
+    match a.toNat?, i.toNat?, v.toNat?, w.toNat? with
+    | some a, some i, some v, some w => (st, s!"a={Bits.set a i v w}")
+    | _, _, _, _ => (st, "bad-op")
+  | ["incr", a, i, w, b] =>
+    match a.toNat?, i.toNat?, w.toNat?, b.toInt? with
+    | some a, some i, some w, some b =>
+      let a' := Bits.incr a i w b
+      (st, s!"a={a'} v={Bits.get a' i w}")
+    | _, _, _, _ => (st, "bad-op")
+  | ["bits", w] =>
+    match w.toNat? with
+    | some w => ({ st with w := w, a := 0, c := Counters.init }, "ok")
+    | none => (st, "bad-op")
+  | ["getbits", l] =>
+    match parseList? l with
+    | some l =>
+      let r := Bits.step st.w st.a (.getBits l)
+      let r' := Counters.step st.w st.c (.getBits l)
+      ({ st with a := r.1, c := r'.1 }, s!"model={showList r.2} spec={showList r'.2}")
+    | none => (st, "bad-op")
+  | ["incrbits", b, l] =>
+    match b.toInt?, parseList? l with
+    | some b, some l =>
+      let r := Bits.step st.w st.a (.incrBits l b)
+      let r' := Counters.step st.w st.c (.incrBits l b)
+      ({ st with a := r.1, c := r'.1 }, s!"model={showList r.2} spec={showList r'.2}")
+    | _, _ => (st, "bad-op")
+  | ["val"] => (st, s!"a={st.a}")
+  | ["idx", reg, key, k, m, fuel, tabs] => doIdx st reg key k m fuel tabs
+  | ["bloom"] => ({ st with filt := 0 }, "ok")
+  | ["badd", r, l] =>
+    match parseBool? r, idxArg? st l with
+    | some r, some l => ({ st with filt := Bloom.add st.filt l r }, "ok")
+    | _, _ => (st, "bad-op")
+  | ["bquery", chk, under, l] =>
+    match parseBool? chk, parseBool? under, idxArg? st l with
+    | some chk, some under, some l =>
+      (st, s!"ans={showBool (Bloom.query st.filt l chk under)} calls={showBool (Bloom.queryCalls st.filt l chk)}")
+    | _, _, _ => (st, "bad-op")
+  | ["dual"] => ({ st with dual := ⟨0, 0⟩ }, "ok")
+  | ["dcall", nc, under, lt, lf] =>
+    match parseBool? nc, parseBool? under, idxArg? st lt, idxArg? st lf with
+    | some nc, some under, some lt, some lf =>
+      let r := Bloom.dualCall st.dual lt lf nc under
+      ({ st with dual := r.1 }, s!"ans={showBool r.2.1} calls={showBool r.2.2}")
+    | _, _, _, _ => (st, "bad-op")
+  | _ => (st, "bad-op")
+
+def main : IO Unit := mainLoop step {}
